@@ -279,9 +279,54 @@ func c09Explore(b *px.Built, r *px.Runner, fam string, idx int64, prm c09Params,
 			}
 		}
 	}
+	// Fourth pass: parser values are independent. The same input again, with the
+	// action of its k-th reduction parsing the same (possibly erroneous) input
+	// with a parser value of its own before it returns, for every k: the outer
+	// parse and the inner parse are each what the parse is alone.
+	nestedCheck := func(w []int) {
+		if len(x.out) > 0 {
+			return
+		}
+		ref := r.Run(w)
+		if ref.Panic != "" || ref.Hang != "" || ref.Incon {
+			return
+		}
+		nred := 0
+		for _, e := range ref.Events {
+			if e.Kind == ctypes.EvReduce {
+				nred++
+			}
+		}
+		want := sig(ref)
+		for k := 0; k < nred && k < 8; k++ {
+			o, ran, innerOK, innerEvs := r.RunNested(w, k, w)
+			st.Evaluations++
+			st.Add("nested_parses", 1)
+			why := ""
+			switch {
+			case o.Panic != "":
+				why = "panic: " + firstLine(o.Panic)
+			case o.Hang != "" || o.Incon:
+				why = "the outer parse does not terminate: " + o.Hang
+			case !ran:
+				why = fmt.Sprintf("the outer parse made fewer than %d reductions this time", k+1)
+			case sig(o) != want:
+				why = fmt.Sprintf("the outer parse is {%s}, alone it is {%s}", sig(o), want)
+			default:
+				if in := sig(&px.Outcome{OK: innerOK, Events: innerEvs}); in != want {
+					why = fmt.Sprintf("the inner parse is {%s}, alone it is {%s}", in, want)
+				}
+			}
+			if why != "" {
+				x.report("C09", "nested-parser-interferes", w, fmt.Sprintf("with the action of reduction #%d parsing the same input with a second parser value: %s", k, why), "")
+				return
+			}
+		}
+	}
 	if only != nil {
 		x.check(only)
 		typedCheck(only)
+		nestedCheck(only)
 		return x.out
 	}
 	alphabet := []int{loxERROR}
@@ -339,6 +384,7 @@ func c09Explore(b *px.Built, r *px.Runner, fam string, idx int64, prm c09Params,
 		})
 	}
 	forStrings(alphabet, prm.L-1, typedCheck)
+	forStrings(alphabet, prm.L-2, nestedCheck)
 	st.States += int64(len(r.Configs))
 	st.Transitions += r.Steps
 	return x.out
